@@ -691,7 +691,9 @@ class UniformOutputInitializer(keras.initializers.Initializer):
         "output_min": self.output_min,
         "output_max": self.output_max,
         "monotonicity": self.monotonicity,
-        "keypoints": self.keypoints,
+        "keypoints": (self.keypoints.tolist()
+                      if isinstance(self.keypoints, np.ndarray)
+                      else self.keypoints),
     }  # pyformat: disable
 
 
